@@ -113,6 +113,11 @@ func runCheck(prop, tier, repo, verif string, verbose, noReplay bool, evOut stri
 	defer os.RemoveAll(scratch)
 	known := loadKnown(verif)
 
+	// vacuity guard: every prelude theory (with its dependencies) must be consistent on its own
+	if bad := P.prelude.inconsistent(scratch); bad != "" {
+		return engineFail("prelude-consistent", fmt.Errorf("prelude theory %s is inconsistent (a solver derives false from the axioms alone)", bad))
+	}
+
 	var vcs []*VC
 	var obls []*Obligation
 	var vcOf map[*Obligation]*VC
